@@ -1069,7 +1069,11 @@ class SCFGIO:
         if backedges is None:
             backedges = {}
 
-        scfg_graph = {}
+        # Create the (still empty) graph of this level first, so that the meta
+        # region of the outermost level is named before those of any
+        # sub-regions, as it is when a graph is restructured.
+        scfg = SCFG({}, name_gen=name_gen)
+        scfg_graph = scfg.graph
         seen = set()
         # The queue must be a sorted FIFO to maintain reproducible insertion
         # order for the SCFG.
@@ -1099,6 +1103,9 @@ class SCFGIO:
                     block_info["exiting"],
                 )
                 block_info.pop("contains")
+                # The parent region is recorded by name, the actual region
+                # object is linked below.
+                block_info.pop("parent_region", None)
 
             block_class = block_type_names[block_type]
             block = block_class(
@@ -1107,12 +1114,21 @@ class SCFGIO:
                 _jump_targets=block_edges,
                 **block_info,
             )
+            if isinstance(block, RegionBlock):
+                # Link the sub-graph and the regions inside it to this region.
+                assert block.subregion is not None
+                object.__setattr__(block.subregion, "region", block)
+                for inner in block.subregion.graph.values():
+                    if isinstance(inner, RegionBlock):
+                        object.__setattr__(inner, "parent_region", block)
 
             scfg_graph[current_name] = block
             if current_name != exiting:
                 queue.extend(edges[current_name])
 
-        scfg = SCFG(scfg_graph, name_gen=name_gen)
+        for block in scfg_graph.values():
+            if isinstance(block, RegionBlock):
+                object.__setattr__(block, "parent_region", scfg.region)
         return scfg
 
     @staticmethod
